@@ -295,8 +295,6 @@ def signature(case, verdict, failed):
             return "swap:depth>0:empty-fiber:AssertionError"
         if fs is not None and fs["op"] == "unflatten" and fs["k"] >= 1 and fs["out"]["err"] == "ERR:IndexError":
             return "unflatten:depth>0:empty-fiber:IndexError"
-        if fs is None and "unflatten" in ops and "defaultDroppedOnly" in tags:
-            return "unflatten:default-dropped"
         if fs is not None and fs["op"] == "unflatten" and fs["out"]["err"] == "ERR:TypeError" \
                 and "undeclaredEmptyRank" in tags:
             return "unflatten:empty-rank:undeclared-shape:TypeError"
